@@ -1619,3 +1619,73 @@ def expand_atoms(facts, atoms, keep, depth=2):
         else:
             out |= expand_atoms(facts, inner, keep, depth - 1)
     return out
+
+
+def postdominators(fn):
+    """block -> set of blocks that post-dominate it (virtual exit = returns and diverging blocks); live blocks only"""
+    cached = getattr(fn, '_expr_cache', {}).get('__pdom__')
+    if cached is not None:
+        return cached
+    live = sorted(fn.reachable([0]))
+    succ = {b: [s for s in fn.succ[b] if s in live] for b in live}
+    EXIT = -1
+    allb = set(live) | {EXIT}
+    pd = {b: set(allb) for b in live}
+    pd[EXIT] = {EXIT}
+    changed = True
+    order = list(reversed(live))
+    while changed:
+        changed = False
+        for b in order:
+            ss = succ[b] if succ[b] else [EXIT]
+            new = set.intersection(*[pd[s] for s in ss]) | {b}
+            if new != pd[b]:
+                pd[b] = new
+                changed = True
+    fn._expr_cache['__pdom__'] = pd
+    return pd
+
+
+def control_switches(facts, fn, site):
+    """switch blocks the execution of `site` is (transitively) control dependent on"""
+    pd = postdominators(fn)
+    live = set(pd) - {-1}
+    deps = {}
+    for a in live:
+        ss = [s for s in fn.succ[a] if s in live]
+        if len(ss) < 2:
+            continue
+        for b in live:
+            if b == a and False:
+                continue
+            yes = [s for s in ss if b in pd[s]]
+            if yes and len(yes) < len(ss) and b not in (pd[a] - {a}):
+                deps.setdefault(b, set()).add(a)
+    out = set()
+    work = [site]
+    seen = {site}
+    while work:
+        b = work.pop()
+        for a in deps.get(b, ()):
+            if a not in out:
+                out.add(a)
+            if a not in seen:
+                seen.add(a)
+                work.append(a)
+    return out
+
+
+def control_atoms(facts, fn, site):
+    """atoms of every test the execution of `site` depends on — conjunctions and disjunctions alike (control dependence),
+    tracing / drop-flag switches excluded (both their arms reconverge, so nothing is control dependent on them)"""
+    sws = all_switches(facts, fn)
+    atoms = set()
+    for a in control_switches(facts, fn, site):
+        sw = sws.get(a)
+        if sw is None:
+            continue
+        t = fn.term(a)
+        if t.get('exp') and any(k in t['exp'] for k in ('trace', 'debug', 'event', 'span', 'warn', 'error!', 'info!')):
+            continue
+        atoms |= predicate_atoms(sw)
+    return atoms
